@@ -485,7 +485,7 @@ class FieldCodeGenerator:
         if array_length_expression is None and not self._delimited:
             element_size = self._get_type().fixed_size
             if element_size is not None:
-                array_length_variable_name = f"{self._name}_length"
+                array_length_variable_name = self._unused_variable_name(f"{self._name}_length")
                 self._data.deserialize.add_line(
                     f"{array_length_variable_name} = int(reader.remaining / {element_size})"
                 )
@@ -493,22 +493,34 @@ class FieldCodeGenerator:
 
         self._data.deserialize.add_line(f"{self._name} = []")
 
+        index_variable_name = self._unused_variable_name("i")
+
         if array_length_expression is None:
             self._data.deserialize.begin_control_flow("while reader.remaining > 0")
         else:
-            self._data.deserialize.begin_control_flow(f"for i in range({array_length_expression})")
+            self._data.deserialize.begin_control_flow(
+                f"for {index_variable_name} in range({array_length_expression})"
+            )
 
         self._data.deserialize.add_code_block(self._get_read_statement())
 
         if self._delimited:
             needs_guard = not self._trailing_delimiter and array_length_expression is not None
             if needs_guard:
-                self._data.deserialize.begin_control_flow(f"if i + 1 < {array_length_expression}")
+                self._data.deserialize.begin_control_flow(
+                    f"if {index_variable_name} + 1 < {array_length_expression}"
+                )
             self._data.deserialize.add_line("reader.next_chunk()")
             if needs_guard:
                 self._data.deserialize.unindent()
 
         self._data.deserialize.unindent()
+
+    def _unused_variable_name(self, name):
+        # Deserialized fields are held in local variables named after the fields.
+        while name in self._context.accessible_fields:
+            name += "_"
+        return name
 
     def _get_read_statement(self):
         real_type = self._get_type()
